@@ -124,8 +124,46 @@ def _skew(rng, K):
     return p / p.sum()
 
 
-def snapshot_from(cell, frac, types, timestep=0, positions=None):
+LAYOUTS = ["plain"] * 6 + ["u32types", "i32types", "fortran", "strided", "readonly", "readonly+u32"]
+
+
+def lay_out(arr, layout, kind):
+    """the same values in another in-memory representation (all of them are what real callers hand over: HOOMD frames carry
+    uint32 type ids, pandas-3 / memory-mapped arrays are read-only, column slices of wider tables are strided views)."""
+    a = np.array(arr)
+    if kind == "types" and "u32" in layout:
+        a = a.astype(np.uint32)
+    if kind == "types" and "i32" in layout:
+        a = a.astype(np.int32)
+    if layout == "fortran" and a.ndim == 2:
+        a = np.asfortranarray(a)
+    if layout == "strided":
+        if a.ndim == 2:
+            big = np.full((a.shape[0], 2 * a.shape[1] + 1), 7.5, dtype=a.dtype)
+            big[:, 1::2] = a
+            a = big[:, 1::2]
+        elif a.ndim == 1:
+            big = np.full(2 * a.shape[0] + 1, 3, dtype=a.dtype)
+            big[1::2] = a
+            a = big[1::2]
+    if "readonly" in layout:
+        a.setflags(write=False)
+    return a
+
+
+LAYOUT_COUNTS = {}
+
+
+def auto_layout(N, types, d):
+    """deterministic choice (no RNG consumed), the same for every frame of a trajectory (N, composition, d are constant)"""
+    h = ((int(N) * 7 + int(np.sum(types)) * 13 + int(d) * 5) * 2654435761) & 0xFFFFFFFF
+    return LAYOUTS[(h >> 9) % len(LAYOUTS)]
+
+
+def snapshot_from(cell, frac, types, timestep=0, positions=None, layout=None):
     """SingleSnapshot in the repository's conventions for the given cell."""
+    layout = layout or auto_layout(len(types), types, cell["d"])
+    LAYOUT_COUNTS[layout] = LAYOUT_COUNTS.get(layout, 0) + 1
     SingleSnapshot, _ = records()
     d = cell["d"]
     H = cell["H"]
@@ -146,9 +184,14 @@ def snapshot_from(cell, frac, types, timestep=0, positions=None):
     else:
         boxbounds = np.column_stack([cell["origin"], cell["origin"] + L])
         realbounds = None
-    return SingleSnapshot(timestep=int(timestep), nparticle=int(len(pos)), particle_type=np.array(types, dtype=int),
-                          positions=np.array(pos, dtype=float), boxlength=L, boxbounds=boxbounds,
-                          realbounds=realbounds, hmatrix=H.copy())
+    Hc = H.copy()
+    if "readonly" in layout:
+        for a in (L, boxbounds, realbounds, Hc):
+            if a is not None:
+                a.setflags(write=False)
+    return SingleSnapshot(timestep=int(timestep), nparticle=int(len(pos)), particle_type=lay_out(np.array(types, dtype=int), layout, "types"),
+                          positions=lay_out(np.array(pos, dtype=float), layout, "positions"), boxlength=L, boxbounds=boxbounds,
+                          realbounds=realbounds, hmatrix=Hc)
 
 
 def snapshots_from(snaps):
@@ -185,7 +228,7 @@ def retilt(rng, cell):
 
 
 def static_system(rng, d=None, N=None, K=1, cellkind=None, poskind=None, frames=1, nmin=2, nmax=60, jitter=0.03, retype=False,
-                  vary_tilt=False):
+                  vary_tilt=False, layout=None):
     """one random multi-frame static system; returns (Snapshots, info).
     vary_tilt: for a triclinic cell and several frames, 40 % of the systems get an own tilt per frame (equal edge lengths, as the
     analyses require); info["Hs"] then lists the cell matrix of every frame."""
@@ -198,12 +241,13 @@ def static_system(rng, d=None, N=None, K=1, cellkind=None, poskind=None, frames=
     N = len(f0)
     types = make_types(rng, N, K)
     snaps = []
+    layout = layout or str(np.random.default_rng([int(f0.shape[0]), int(types.sum()), int(f0[0, 0] * 1e9)]).choice(LAYOUTS))
     shear = bool(vary_tilt and frames > 1 and cellkind.startswith("tri") and cellkind != "tri0" and rng.random() < 0.4)
     cells = [cell] + [retilt(rng, cell) if shear else cell for _ in range(frames - 1)]
     for t in range(frames):
         f = (f0 + (rng.normal(0, jitter, f0.shape) if t else 0.0)) % 1.0
         tt = types if (t == 0 or not retype) else types[rng.permutation(N)]   # swap moves: same composition, other ids
-        snaps.append(snapshot_from(cells[t], f, tt, timestep=1000 * t))
-    info = {"d": d, "N": N, "K": int(len(np.unique(types))), "cell": cellkind + ("/sheared" if shear else ""), "pos": poskind, "frames": frames,
+        snaps.append(snapshot_from(cells[t], f, tt, timestep=1000 * t, layout=layout))
+    info = {"layout": layout, "d": d, "N": N, "K": int(len(np.unique(types))), "cell": cellkind + ("/sheared" if shear else ""), "pos": poskind, "frames": frames,
             "H": cell["H"], "origin": cell["origin"], "Hs": [c["H"] for c in cells]}
     return snapshots_from(snaps), info, cell
